@@ -71,12 +71,25 @@ def run(rep, tier, seed, replay=None):
     if replay and 'case' in replay:
         rc, out = vh(binp, ['c09', 'one'] + replay['case'], timeout=60)
     else:
-        rc, out = vh(binp, ['c09', 'cases', seed, n], timeout=300)
+        rc, out = vh(binp, ['c09', 'cases', seed, n], timeout=90)
+    hung = None
+    lines = [l for l in out.split('\n') if l[:2] in ('C ', 'R ')]
+    if lines and lines[-1].startswith('C '):
+        # the implementation did not return (hang / abort / panic) on the last case printed
+        hung = [int(x) for x in lines[-1].split()[1:]]
+        out = '\n'.join(lines[:-1])
     try:
         cases, impl = parse_cr(out)
     except RuntimeError as ex:
         cases, impl = [], []
         rep.add_broken('correspondence', 'vh c09 cases', str(ex))
+    if hung is not None:
+        how = 'does not terminate (killed after 90 s)' if rc == 124 else 'aborts (exit code %s)' % rc
+        rep.add_broken('correspondence', 'vh c09 cases', 'the implementation %s on a K case' % how)
+        rep.add_violation('compute_layout %s on a grid of the K class (no DetailedGridInfo is produced; the model terminates: '
+                          'C09_distribute_terminates / fuelled find_size_of_fr)' % how,
+                          {'case': hung, 'cmd': 'timeout 20 vh c09 one ' + ' '.join(map(str, hung))})
+        rc = 0 if cases else rc
     if rc != 0 or not cases:
         rep.add_broken('correspondence', 'vh c09 cases', 'harness failed (rc=%s): %s' % (rc, out[-600:]))
     bad = []
@@ -113,6 +126,9 @@ def run(rep, tier, seed, replay=None):
     # ---- replay of one oracle hit
     if replay and 'index' in replay:
         rc, out = vh(binp, ['c09', 'show', replay['seed'], replay['index'], replay.get('oracle_n', 0)], timeout=60)
+        if rc == 124:
+            rep.add_violation('compute_layout does not terminate on this oracle case', dict(replay))
+            return
         for l in out.split('\n'):
             if l.startswith('FAIL '):
                 p = l.split(' ', 3)
@@ -123,7 +139,14 @@ def run(rep, tier, seed, replay=None):
     no = 1500 if tier == 'quick' else 40000
     if rep.broken or mine:
         no = max(no, 12000)
-    rc, out = vh(binp, ['c09', 'oracle', seed, no], timeout=900)
+    rc, out = vh(binp, ['c09', 'oracle', seed, no], timeout=240 if tier == 'quick' else 1500)
+    if rc != 0:
+        starts = re.findall(r'^START (-?\d+)', out, re.M)
+        if starts and not re.search(r'^ORACLE ', out, re.M):
+            how = 'does not terminate' if rc == 124 else 'aborts (exit code %s)' % rc
+            idx = int(starts[-1])
+            rep.add_violation('compute_layout %s on oracle case %d' % (how, idx),
+                              {'cmd': 'timeout 20 vh c09 show %d %d %d' % (seed, idx, no), 'seed': seed, 'index': idx, 'oracle_n': no, 'clause': 'hang'})
     fails, knowns = [], {}
     for l in out.split('\n'):
         if l.startswith('FAIL '):
@@ -140,7 +163,7 @@ def run(rep, tier, seed, replay=None):
     elif rc != 0 or not fails:
         rep.add_broken('search', 'vh c09 oracle', out[-600:])
     # the witnesses of the _refuted theorems must still fail on the implementation
-    rc, wout = vh(binp, ['c09', 'witness'], timeout=60)
+    rc, wout = vh(binp, ['c09', 'witness'], timeout=30)
     wk = set(re.findall(r'^KNOWN \d+ (\S+)', wout, re.M))
     kf = {f['id']: f for f in known_findings('C09') if f.get('status') == 'known'}
     cls_to_id = {'fr-floor-remaining-lt-1': 'fr-fill-floored-track', 'threshold-overshoot': 'distribute-threshold-overshoot'}
